@@ -71,20 +71,18 @@ theorem degradeW_spec {X : Type} (c : Cfg) (vc : VCfg V) (vcOut : VCfg W) (s : S
   exact h.degradeW_spec' hg vcOut wv zero wOf red hw
 
 /-- **below-coverage path**: re-housing into a map with another coverage resolution (same
-    sparse resolution) never raises, yields a well-formed map and changes no pixel value —
+    sparse resolution) never raises, yields a well-formed map, keeps the value of every valid
+    pixel and keeps every invalid pixel invalid (it reads the sentinel in the re-housed map) —
     so degrading below the coverage resolution equals degrading an equal map built with the
     coarser coverage resolution. -/
 theorem rehouse_spec (c cNew : Cfg) (vc : VCfg V) (s : State V) (h : Inv c vc s)
     (hv : vc.valid vc.sentinel = false) (hn : cNew.npix = c.npix) :
     ∃ s', rehouseMap c cNew vc s = some s' ∧ Inv cNew vc s' ∧
-      ∀ p, p < c.npix → abs cNew vc s' p = abs c vc s p := by
-  -- FALSE as stated: an invalid cell need not hold the sentinel (`valid` is not tied to
-  -- `· ≠ sentinel`), and re-housing only copies the valid pixels.  Counterexample:
-  -- `c = cNew = ⟨1, 0⟩`, `vc = ⟨-1, (· > 0)⟩`, `s = ⟨#[1], #[-1, 0]⟩` satisfies `Inv` and `hv`,
-  -- `abs c vc s 0 = 0` but the re-housed map reads `-1` at pixel 0.  See `rehouse_spec_partial`.
-  sorry
+      ∀ p, p < c.npix → vc.valid (abs cNew vc s' p) = vc.valid (abs c vc s p) ∧
+        (vc.valid (abs c vc s p) = true → abs cNew vc s' p = abs c vc s p) := by
+  exact h.rehouse_spec' hv cNew hn
 
-/-- corrected `rehouse_spec`: with the extra hypothesis that every invalid cell value IS the
+/-- value-equality form of `rehouse_spec`: with the extra hypothesis that every invalid cell value IS the
     sentinel (true for all scalar kinds, where `valid = (· ≠ sentinel)`; false for record cells
     whose cleared records differ from the blank record), re-housing never raises, yields a
     well-formed map and changes no pixel value. -/
@@ -94,6 +92,34 @@ theorem rehouse_spec_partial (c cNew : Cfg) (vc : VCfg V) (s : State V) (h : Inv
     ∃ s', rehouseMap c cNew vc s = some s' ∧ Inv cNew vc s' ∧
       ∀ p, p < c.npix → abs cNew vc s' p = abs c vc s p := by
   exact h.rehouse_partial' hv hs cNew hn
+
+namespace Witness
+
+/-- The value-equality form of `rehouse_spec` (`abs cNew vc s' p = abs c vc s p` for EVERY
+    pixel) is FALSE without the "invalid cells hold the sentinel" hypothesis `hs` of
+    `rehouse_spec_partial`: with one pixel, `valid = (· > 0)`, sentinel `-1` and the
+    well-formed state `⟨#[1], #[-1, 0]⟩`, pixel 0 reads the invalid non-sentinel value `0`,
+    but re-housing copies only valid pixels, so the re-housed map reads `-1` there. -/
+theorem rehouse_value_spec_false :
+    ¬ (∀ (c cNew : Cfg) (vc : VCfg Int) (s : State Int), Inv c vc s →
+        vc.valid vc.sentinel = false → cNew.npix = c.npix →
+        ∃ s', rehouseMap c cNew vc s = some s' ∧ Inv cNew vc s' ∧
+          ∀ p, p < c.npix → abs cNew vc s' p = abs c vc s p) := by
+  intro H
+  obtain ⟨s', h1, _, h3⟩ := H rehouseWitnessCfg rehouseWitnessCfg rehouseWitnessVC
+    rehouseWitnessState (by decide +kernel) (by decide +kernel) rfl
+  have e : (rehouseMap rehouseWitnessCfg rehouseWitnessCfg rehouseWitnessVC
+      rehouseWitnessState).map (fun s' => abs rehouseWitnessCfg rehouseWitnessVC s' 0)
+      = some (-1) := by decide +kernel
+  rw [h1] at e
+  have h4 := h3 0 (by decide +kernel)
+  have h5 : abs rehouseWitnessCfg rehouseWitnessVC rehouseWitnessState 0 = 0 := by
+    decide +kernel
+  rw [h5] at h4
+  simp only [Option.map_some, h4] at e
+  cases e
+
+end Witness
 
 /-- non-vacuity: a map whose coarse pixels have 0, 1 and all children valid, blocks out of order -/
 example : (degradeMap (V := Int) (W := Int) ⟨3, 1⟩ ⟨-1, fun x => x != -1⟩ ⟨#[4, -2, -2], #[-1, -1, 7, -1, 3, 9]⟩ 1
